@@ -5,7 +5,9 @@
 //
 //   fs <missing|nonh5|empty|plainh5|lib>         reset the case: remove the case file, close any session, drop every
 //                                                held handle, then put that prior content at the case path
-//   hdr <noformat|badformat|noversion|noid>      damage the header of the (closed) case file through the HDF5 C API
+//   hdr <noformat|badformat|noversion|noid|fmt=s:<hex>|ver=x.y.z>
+//                                                damage the header of the (closed) case file through the HDF5 C API
+//                                                (format set to that string / version set to that vector)
 //   open <ro|rw|ow> <none|deflate|auto> <0|1>    File::open(path, mode, "hdf5", compression, Force?) ->
 //                                                mode=<fileMode()> comp=<compression()> blocks=<n> sections=<n>
 //   blk n | sec n | arr b n v.. | set b a v.. | prop s n v | delblk n | delsec n | delarr b n | rich n
